@@ -51,7 +51,9 @@ PROP = {
             "(reply published and command settled per AckCommandErrors all the same; a settlement without a published reply is a violation); "
             "SendWithReply / SendWithReplies failing to send; two command types with their own concurrently "
             "running handlers whose successful replies overlap between operation-id stamping and Publish (rendezvous in "
-            "ModifyNotificationMessage); handler errors of every construction kind (errors.New, %w, pkg/errors Wrap/Wrapf/WithMessage/"
+            "ModifyNotificationMessage); a configured ListenForReplyTimeout of zero / a negative one (passed at once); "
+            "requests issued inside a request handler through a bus whose OnSend propagates the handled message's metadata (the operation id "
+            "stamped by SendWithReplies must have the last word); handler errors of every construction kind (errors.New, %w, pkg/errors Wrap/Wrapf/WithMessage/"
             "WithStack, an own type with a Cause method); handler error texts containing % patterns, "
             "compared byte for byte; caller contexts with their own deadline later / earlier than ListenForReplyTimeout and without a backend "
             "time-out; scenarios with and without an "
